@@ -13,8 +13,8 @@ RULE = ("request sequences of 1-6 requests (write/read/diagnostic/listen-only/un
         "{0,1,2,17,247,255} + hosted + random, tids from {0,1,0x1234,65535} + random, one per read / pipelined / "
         "grouped, against single and multi-unit contexts (hosted sets incl. 0, 247, 255; healthy, raising and "
         "NoSuchSlave-raising datastores), ignore_missing_slaves and broadcast_enable on/off; every front-end "
-        "(sync tcp/udp/serial, asyncio tcp/udp, Twisted tcp/udp) x socket framing and the stream front-ends x "
-        "RTU framing are enumerated, never drawn.  A case is non-trivial when at least one request was delivered "
+        "(sync tcp/udp/serial, asyncio tcp/udp, Twisted tcp/udp) x socket framing, the stream front-ends x "
+        "RTU framing, serial/asyncio x ASCII and sync/Twisted TCP x binary framing (15 combinations) are enumerated, never drawn.  A case is non-trivial when at least one request was delivered "
         "to the handler; distinct = distinct Coq case terms.  Python-side: byte-level end-to-end check of the TCP "
         "front-ends (independent MBAP splitter) and of RTU on the serial handler.")
 TRUSTED = [
